@@ -1674,11 +1674,14 @@ class OPCODE(AbstractOperation):
     def typecheck(self, *args, assembly_only=False, **kwargs):
         messages = super().typecheck(*args, assembly_only=assembly_only, **kwargs)
 
-        try:
-            disassemble(self.args[0], allow_unknown=assembly_only)
-        except HERAError:
-            if not assembly_only:
-                messages.err("not a HERA instruction", self.tokens[0])
+        # Only a literal word can be checked here; a missing or ill-typed argument has
+        # already been reported, and a constant is not substituted until preprocessing.
+        if len(self.tokens) == 1 and self.tokens[0].type == Token.INT:
+            try:
+                disassemble(self.args[0], allow_unknown=assembly_only)
+            except HERAError:
+                if not assembly_only:
+                    messages.err("not a HERA instruction", self.tokens[0])
 
         return messages
 
